@@ -132,8 +132,10 @@ class Agent:
                 delay, dg = item if isinstance(item, tuple) else (0, item)
                 if delay:
                     rest = t0 + delay - time.perf_counter()
-                    if rest > 0:
-                        time.sleep(rest)
+                    if rest > 0.002:
+                        time.sleep(rest - 0.0015)
+                    while t0 + delay - time.perf_counter() > 0:
+                        pass  # spin for the last 1.5 ms: sub-millisecond schedules need it
                 self.send(dg, addr)
             self.busy = False
 
